@@ -72,7 +72,7 @@ def run(module, cfg=None, env=None, workers=1, timeout=600, args=(), spec_dir=SP
     cfg = cfg or (module + ".cfg")
     meta = tempfile.mkdtemp(prefix="tlcmeta-")
     cmd = [
-        "java", "-XX:+UseParallelGC", f"-Xmx{heap}", "-Dtlc2.tool.fp.FPSet.impl=tlc2.tool.fp.OffHeapDiskFPSet",
+        "java", "-XX:+UseParallelGC", f"-Xmx{heap}", "-Xss32m", "-Dtlc2.tool.fp.FPSet.impl=tlc2.tool.fp.OffHeapDiskFPSet",
         f"-DTLA-Library={spec_dir}",
         "-cp", f"{BUILD}:{JAR}:{CM}", "tlc2.TLC",
         "-workers", str(workers), "-metadir", meta, "-noGenerateSpecTE",
